@@ -28,7 +28,7 @@ ASSUMPTIONS = ['the threaded part is a stress run: the interleaving is not contr
 
 PATS = ['*.txt', '*.TXT', 'a*', '[ab]?', '@(a|b)*', '!(a)', '**/a', '**', 'a/**/b', '*', '?', '.*', 'a', 'A', '+(a)b', 'a|b', '{a,b}c', '\\x41',
         '!a', '-a', '*/', 'b/', '[[:alpha:]]', '*(a|b)', 'a/*', '***']
-FLAGSETS_FN = [0, F.I, F.C, F.D, F.E, F.E | F.D, F.S, F.B, F.N | F.A, F.R, F.W, F.U, F.N | F.M | F.A, F.E | F.S | F.N]
+FLAGSETS_FN = [0, F.I, F.C, F.D, F.E, F.E | F.D, F.S, F.B, F.N | F.A, F.R, F.W, F.U, F.N | F.M | F.A, F.E | F.S | F.N, F.W | F.R, F.I | F.C]
 FLAGSETS_GL = [0, G.G, G.G | G.D, G.X, G.X | G.G, G.E | G.G, G.N | G.M | G.A, G.I, G.W, G.GL | G.L, G.O, G.Z | G.D]
 NAMES = ['a', 'A', 'a.txt', 'A.TXT', '.a', 'a/b', 'b/a', 'x/y/a', 'ab', 'p7x', 'Ac', 'b/']
 TREE = T.CATALOGUE[2]
@@ -43,7 +43,11 @@ def build_pool():
         hot.append(('ft', p, F.E, None))
         hot.append(('gm', p, G.G, 'x/y/a'))
         hot.append(('gt', p, G.G, None))
-    hot = hot[:40]
+    hot = hot[:34]
+    # the same escape text under RAWCHARS and not, with and without the Windows normalisation pass
+    hot += [('fn', '\\x41', F.W, 'x41'), ('fn', '\\x41', F.W | F.R, 'A'), ('fn', '\\x2a', F.W | F.R, 'zz'), ('fn', '\\x2a', F.W, 'x2a'),
+            ('gm', '\\x41', G.W, 'x41'), ('gm', '\\x41', G.W | G.R, 'A'), ('fnb', '\\x41', F.W | F.R, 'A'), ('fnb', '\\x41', F.W, 'x41'),
+            ('fn', '\\x41', F.R, 'A'), ('fn', '\\x41', 0, 'x41')]
     pool = []
     for p in PATS:
         for fl in FLAGSETS_FN:
@@ -378,9 +382,14 @@ from wcverif.checks import c19
 from wcverif import fscommon as FC
 hot, pool, filler = c19.build_pool()
 sel = [d for d in list(dict.fromkeys(hot + pool[::7]))]
+order = list(range(len(sel)))
+if %(reverse)r:
+    order.reverse()
+res = {}
 with FC.built_tree(c19.TREE) as (root, _r):
-    out = [[list(d), c19.jsonable(c19.call(d, root))] for d in sel]
-print(json.dumps(out))
+    for i in order:
+        res[i] = c19.jsonable(c19.call(sel[i], root))
+print(json.dumps([[list(sel[i]), res[i]] for i in range(len(sel))]))
 '''
 
 
@@ -395,16 +404,25 @@ def run_fresh(desc):
             call(d, root)
         here = [jsonable(call(d, root)) for d in sel]
     env = dict(os.environ, PYTHONHASHSEED='1', VERIF_REPO=os.environ.get('VERIF_REPO', '/repo'))
-    r = subprocess.run([sys.executable, '-c', FRESH_SCRIPT % {'verif': VERIF_DIR}], capture_output=True, text=True, timeout=600, env=env)
-    if r.returncode != 0:
-        raise HarnessError('fresh interpreter failed: ' + r.stderr[-500:])
-    line = [l for l in r.stdout.splitlines() if l.startswith('[')][-1]
-    there = json.loads(line)
-    for (d, v), h in zip(there, here):
-        out.evaluations += 1
+    runs = []
+    for reverse in (False, True):
+        r = subprocess.run([sys.executable, '-c', FRESH_SCRIPT % {'verif': VERIF_DIR, 'reverse': reverse}], capture_output=True, text=True,
+                           timeout=600, env=env)
+        if r.returncode != 0:
+            raise HarnessError('fresh interpreter failed: ' + r.stderr[-500:])
+        line = [l for l in r.stdout.splitlines() if l.startswith('[')][-1]
+        runs.append(json.loads(line))
+    there, there_rev = runs
+    for (d, v), h, (_d2, v2) in zip(there, here, there_rev):
+        out.evaluations += 2
         if v != h:
             out.violation({'call': d, 'fresh_interpreter': v, 'after_history': h, 'problem': 'result differs from a fresh interpreter'},
                           bucket=('fresh', d[0]))
+        if v != v2:
+            # the same calls evaluated in the opposite order in another fresh interpreter: any process-wide memo that is not
+            # keyed on all arguments shows here even though it survives cache_clear()
+            out.violation({'call': d, 'forward_order': v, 'reverse_order': v2, 'problem': 'result depends on the order of earlier calls (fresh interpreters)'},
+                          bucket=('order', d[0]))
     out.nontrivial(('fresh', len(sel)))
     out.nontrivial(('fresh-hashseed', 1))
     out.sample({'kind': 'fresh interpreter', 'descriptors': len(sel), 'PYTHONHASHSEED': 1})
